@@ -793,6 +793,8 @@ def gen_isophote_table():
     sorts = any(isinstance(n, ast.Expr) and norm(n.value) == 'isophote_list.sort()' for n in fit_image.body)
     central = any(isinstance(n, ast.If) and norm(n.test) == 'minsma==0.0' for n in fit_image.body)
     fixvec = 'np.array([fix_center,fix_center,fix_pa,fix_eps])' in norm(fit_image)
+    ginit = _cls_method(ast.parse(s3), 'EllipseGeometry', '__init__')
+    fixvec = fixvec and ginit is not None and 'self.fix=np.array([fix_center,fix_center,fix_pa,fix_eps])' in norm(ginit)
     fit = _cls_method(ast.parse(s2), 'EllipseFitter', 'fit')
     t = norm(fit) if fit is not None else ''
     masked = ('free_coeffs=np.ma.masked_array(coeffs[1:],mask=fixed_parameters)' in t and 'largest_harmonic_index=np.argmax(np.abs(free_coeffs))' in t
@@ -816,7 +818,7 @@ def gen_isophote_table():
            f'def inwardBreaksAtMinsma : Bool := {b(in_ok and upd(in_loop) and reset)}\n'
            f'/-- `isophote_list.sort()` before returning; the central pixel is added for `minsma == 0.0` -/\n'
            f'def sortsResult : Bool := {b(sorts and central)}\n'
-           f'/-- `fix = [fix_center, fix_center, fix_pa, fix_eps]`, correctors [position0, position1, angle, ellipticity] -/\n'
+           f'/-- `fix = [fix_center, fix_center, fix_pa, fix_eps]` (in fit_image and in EllipseGeometry.__init__), correctors [position0, position1, angle, ellipticity] -/\n'
            f'def fixVectorOrder : Bool := {b(fixvec and correctors)}\n'
            f'/-- the corrector is chosen by argmax |coeffs[1:]| over the parameters that are not fixed -/\n'
            f'def freeCoeffsMaskedByFix : Bool := {b(masked)}\n'
